@@ -795,6 +795,13 @@ def _configs(spt, r, ka, kb, scale, cfg=None):
             return (cfg, q, ln) if ka == 'quad' else (cfg, ln, q)
         if kinds == {'arc', 'line'}:
             arc = ic.rand_seg(spt, r, 'arc', scale, None)
+            if r.random() < 0.4:
+                # an ellipse turned by a multiple of 180 degrees is the same point set, but not the same parameterisation
+                arc = P.Arc(arc.start, complex(arc.radius.real, arc.radius.real * r.choice([0.5, 0.7, 1.6])), r.choice([180, -180, 540, 360, 180.0]), arc.large_arc, arc.sweep, arc.end)
+                p_, q_ = arc.point(r.uniform(0.15, 0.45)), arc.point(r.uniform(0.55, 0.9))
+                ln = P.Line(p_ - (q_ - p_) * r.uniform(0.2, 1), q_ + (q_ - p_) * r.uniform(0.2, 1)) if r.random() < 0.5 else \
+                    P.Line(arc.center + (p_ - arc.center) * 0.3, arc.center + (p_ - arc.center) * 1.7)
+                return (cfg, arc, ln) if ka == 'arc' else (cfg, ln, arc)
             if arc.rotation == 0:
                 arc = arc.rotated(r.choice([30, 77.5, -120]))
             c = arc.center
@@ -911,15 +918,20 @@ def sample(ctx, budget=1.0, hint=None, broken=None):
     warnings.simplefilter('ignore')
     N_main = int(ctx.n(260, 4000) * budget)
     N_hist = int(ctx.n(60, 600) * budget)
-    for it in range(N_main + N_hist):
+    N_special = int(ctx.n(40, 400) * budget)
+    for it in range(N_main + N_hist + N_special):
         ka, kb = r.choice(ic.KINDS4), r.choice(ic.KINDS4)
         scale = r.choice([1.0, 1.0, 1.0, 100.0, 1e-2])
-        always_hist = it >= N_main       # a second block: crossing pairs whose operands ALL have a past
+        always_hist = N_main <= it < N_main + N_hist       # a second block: crossing pairs whose operands ALL have a past
+        special = it >= N_main + N_hist                     # a third block: the exactly degenerate configurations of `_configs`
         if always_hist:
             ka, kb = r.choice([('cubic', 'arc'), ('arc', 'cubic'), ('quad', 'arc'), ('arc', 'quad'), ('cubic', 'line'), ('line', 'cubic'), ('cubic', 'quad'),
                                ('quad', 'line'), ('arc', 'line'), ('line', 'arc')])
             scale = 1.0
-        c = _configs(spt, r, ka, kb, scale, cfg='cross' if always_hist else None)
+        if special:
+            ka, kb = r.choice([('quad', 'line'), ('line', 'quad'), ('arc', 'line'), ('line', 'arc'), ('arc', 'line')])
+            scale = r.choice([1.0, 1.0, 10.0])
+        c = _configs(spt, r, ka, kb, scale, cfg='cross' if always_hist else ('special' if special else None))
         if c is None:
             continue
         cfg, a, b = c
@@ -976,7 +988,10 @@ def sample(ctx, budget=1.0, hint=None, broken=None):
         if rres is not None:
             check_pairs(spt, b, a, rres, fail, info, rep=rrep)
         # operand swap: same crossings, parameters exchanged (decided only where the answer is stable: transversal configurations)
-        if res is not None and rres is not None and cfg in ('cross', 'disjoint'):
+        both_arcs_general = (ka == 'arc' and kb == 'arc' and not (ic.arc_class(a) == 'circ0' and ic.arc_class(b) == 'circ0'))
+        # (two arcs that are not both circular and unrotated: the solver is documented as not fully implemented and each operand order
+        # finds its own subset of the crossings - the statement covers what IS returned there, which check_pairs examined above)
+        if res is not None and rres is not None and cfg in ('cross', 'disjoint') and not both_arcs_general:
             A = sorted((float(t1), float(t2)) for t1, t2 in res)
             B = sorted((float(t1), float(t2)) for t2, t1 in rres)
             if 'arc' in (ka, kb):
